@@ -213,6 +213,9 @@ theorem prefix_place {b b' : Builder} {p : Str} {u : StrSpan} {sp : Span} (hr : 
   split at hr
   · cases hr
   · rename_i us hus
+    split at hr
+    · cases hr
+    rename_i hres
     dsimp only at hr
     split at hr
     · cases hr
@@ -221,15 +224,15 @@ theorem prefix_place {b b' : Builder} {p : Str} {u : StrSpan} {sp : Span} (hr : 
       · cases hr
       · simp only [Step.ok.injEq] at hr
         subst hr
-        refine ⟨us, eb, _, hus, by simp only [prefixRegs, hus], heb, rfl, ?_⟩
-        simp only [prefixRegs, hus]
+        refine ⟨us, eb, _, hus, by simp only [prefixRegs, hus, hres, Bool.false_eq_true, if_false], heb, rfl, ?_⟩
+        simp only [prefixRegs, hus, hres, Bool.false_eq_true, if_false]
         rfl
 
-/-- A processing instruction `<?target …?>`: one call, (target as written, no namespace); the
-    node stores the id returned. -/
+/-- A processing instruction `<?target …?>` (target other than `xml`): one call, (target as
+    written, no namespace); the node stores the id returned. -/
 theorem processingInstruction_place (b : Builder) (target : StrSpan) (content : Option StrSpan) :
     (b.processingInstruction target content).cur.rkids =
-      .node (.pi ((b.env.regAll [.name target.text Env.noNamespace]).2.getD 0 0) (content.map (fun c => c.text))) []
+      .node (.pi ((b.env.regAll [.name target.text Env.noNamespace]).2.getD 0 0) (content.map (fun c => normalizeLineEnds c.text))) []
         :: b.cur.rkids := rfl
 
 end XotModel
